@@ -478,27 +478,27 @@ def run_distrib(ctx, split):
             for ok in r["returned"]:
                 ctx.count((sc, ok), kind="distrib/idle")
             if not all(r["returned"]):
-                ctx.fail("shutdown:idle-input", "HandleRegUpdates did not return within 2 s of the stop request while no "
+                ctx.fail("shutdown:idle-input", "HandleRegUpdates did not return within 4 s of the stop request while no "
                          "registrations were arriving (the distributor only wakes up on a message)", replay)
         elif sc == "busy":
             for n in r["after_cancel"]:
                 ctx.count((sc, n), kind="distrib/busy")
             if not all(r["returned"]):
-                ctx.fail("shutdown:busy-input-hang", "HandleRegUpdates did not return within 2 s of the stop request with a busy input", replay)
+                ctx.fail("shutdown:busy-input-hang", "HandleRegUpdates did not return within 4 s of the stop request with a busy input", replay)
             elif max(r["after_cancel"]) > 1:
                 ctx.fail("shutdown:busy-input", "after the stop request the distributor kept taking registrations from a busy input "
                          "(%s further messages in %d trials; bounded only in expectation)" % (sorted(set(r["after_cancel"])), len(r["after_cancel"])), replay)
         else:
             ctx.count((sc, c["workers"], r["received"], r["dropped"]), kind="distrib/overload")
             if r["send_blocked"]:
-                ctx.fail("overload:receiver-blocked", "with every worker busy the distributor stopped receiving (a send into the pipeline blocked for 2 s)", replay)
+                ctx.fail("overload:receiver-blocked", "with every worker busy the distributor stopped receiving (a send into the pipeline blocked for 4 s)", replay)
             elif r["received"] != c["messages"] or r["received"] != r["taken"] + r["buffered"] + r["dropped"] or r["dropped"] != r["total_dropped"]:
                 ctx.fail("overload:lost-count", "received=%d but taken=%d buffered=%d dropped=%d (counted %d)" %
                          (r["received"], r["taken"], r["buffered"], r["dropped"], r["total_dropped"]), replay)
             if not r["send_blocked"]:
                 terms.append((pcase_term(not split, c["workers"], r["cap"], 30000 // 20, c["messages"], r), replay))
             if r["returned"] and not all(r["returned"]):
-                ctx.fail("shutdown:idle-input", "HandleRegUpdates did not return within 2 s of the stop request after the overload run", replay)
+                ctx.fail("shutdown:idle-input", "HandleRegUpdates did not return within 4 s of the stop request after the overload run", replay)
     if terms:
         mm = ctx.coq_mismatches("distrib", HEADER, [t for t, _ in terms], "pchk", need_vo=["C09/Run.vo"])
         if mm:
